@@ -374,11 +374,9 @@ class GenEval:
             sig = self.exec_block(fdef.body, env)
         finally:
             self.depth -= 1
-        if sig is None:
-            return Const(None)
-        if sig[0] == 'return':
-            return sig[1]
-        raise AnalysisError(f"loop control escaped function {fdef.name}")
+        if sig is not None and sig[0] in ('break', 'continue'):
+            raise AnalysisError(f"loop control escaped function {fdef.name}")
+        return self.finish(sig, fdef.name)
 
     def param_names(self, fdef):
         a = fdef.args
@@ -439,11 +437,43 @@ class GenEval:
 
     # -- statements --------------------------------------------------------------
     def exec_block(self, stmts, env):
-        for st in stmts:
+        for i, st in enumerate(stmts):
             sig = self.exec_stmt(st, env)
-            if sig is not None:
+            if sig is None:
+                continue
+            if sig[0] != 'partial':
                 return sig
+            # `if <undecided>: return A` : the rest of the block runs under the negated condition
+            _, test, pol, val = sig
+            frames = self.capture_begin(env)
+            self.cond_stack.append((test, not pol))
+            try:
+                rest = self.exec_block(stmts[i + 1:], env)
+            finally:
+                self.cond_stack.pop()
+                for o, got in self.capture_end(frames):
+                    if got:
+                        o.segs.append(CondSeg(test, not pol, tuple(got)))
+            if rest is None:
+                return sig                      # the enclosing block continues under the same condition
+            if rest[0] == 'return':
+                return ('return', Phi(test, val, rest[1]) if pol else Phi(test, rest[1], val))
+            if rest[0] == 'raise':
+                return ('return', val)
+            raise AnalysisError(f"nested conditional returns outside the subset near {norm(st)[:60]}")
         return None
+
+    @staticmethod
+    def finish(sig, what):
+        """return value of a function body from its final signal"""
+        if sig is None:
+            return Const(None)
+        if sig[0] == 'return':
+            return sig[1]
+        if sig[0] == 'partial':
+            _, test, pol, val = sig
+            return Phi(test, val, Const(None)) if pol else Phi(test, Const(None), val)
+        raise AnalysisError(f"{what}: no return value on the analysed path ({sig[0]})")
 
     def exec_stmt(self, st, env):
         self.steps += 1
@@ -597,6 +627,8 @@ class GenEval:
                     o.segs.append(CondSeg(test, pol, tuple(got)))
             results.append((sig, env.vars))
         (s1, v1), (s2, v2) = results
+        if any(x is not None and x[0] == 'partial' for x in (s1, s2)):
+            raise AnalysisError(f"nested conditional returns outside the subset: {norm(st.test)[:60]}")
         for s in (s1, s2):
             if s is not None and s[0] in ('break', 'continue'):
                 if not self.loop_stack:
@@ -616,7 +648,11 @@ class GenEval:
                 return s1
             return ('return', Phi(test, s1[1], s2[1]) if s1[1] != s2[1] else s1[1])
         if s1 is not None or s2 is not None:
-            raise AnalysisError(f"only one branch of an undecided condition returns: {norm(st.test)[:60]}")
+            ret, pol, keep = (s1, True, v2) if s1 is not None else (s2, False, v1)
+            if ret[0] != 'return':
+                raise AnalysisError(f"conditional {ret[0]} outside the subset: {norm(st.test)[:60]}")
+            env.vars = keep
+            return ('partial', test, pol, ret[1])
         merged = {}
         for n in set(v1) | set(v2):
             a, b = v1.get(n), v2.get(n)
@@ -714,8 +750,8 @@ class GenEval:
         if sig is not None:
             if sig[0] in ('break', 'continue'):
                 self.loop_flags[loop.id].add(sig[0])
-            elif sig[0] == 'return':
-                self.loop_flags[loop.id].add('return')
+            elif sig[0] in ('return', 'partial'):
+                self.loop_flags[loop.id].add('return' if sig[0] == 'return' else 'conditional-return')
             else:
                 self.loop_flags[loop.id].add('raise')
         flags = tuple(sorted(self.loop_flags[loop.id]))
@@ -1128,10 +1164,10 @@ def eval_generator(module, fdef, kind, param_values=None):
     for a in fdef.args.args + fdef.args.kwonlyargs + ([fdef.args.vararg] if fdef.args.vararg else []):
         env.set(a.arg, (param_values or {}).get(a.arg, Sym(a.arg)))
     sig = ev.exec_block(fdef.body, env)
-    if sig is None or sig[0] != 'return':
+    if sig is None:
         raise AnalysisError(f"{fdef.name}: no return value on the analysed path")
     ev.final_env = env
-    return sig[1], ev
+    return ev.finish(sig, fdef.name), ev
 
 
 def eval_case(module, fobj_or_def, kind, type_param=None, closure=None):
@@ -1149,10 +1185,10 @@ def eval_case(module, fobj_or_def, kind, type_param=None, closure=None):
     # the helper may call itself: make its own name resolve to itself
     outer.set(fdef.name, FuncObj(fdef, outer))
     sig = ev.exec_block(fdef.body, env)
-    if sig is None or sig[0] != 'return':
+    if sig is None:
         raise AnalysisError(f"{fdef.name}[{kind}]: no return value on the analysed path")
     ev.final_env = env
-    return sig[1], ev, Sym(tp)
+    return ev.finish(sig, f"{fdef.name}[{kind}]"), ev, Sym(tp)
 
 
 def find_type_param(fdef):
@@ -1472,3 +1508,15 @@ def loops_in(v):
         if isinstance(x, (LoopSeg, Fold)) and x.loop not in out:
             out.append(x.loop)
     return out
+
+
+def alternatives(v, conds=()):
+    """the arms of a (nested) Phi value: list of (conditions, value); the LAST entry is the fall-through arm
+    (all conditions false)"""
+    if isinstance(v, Phi):
+        return alternatives(v.a, conds + ((v.test, True),)) + alternatives(v.b, conds + ((v.test, False),))
+    return [(conds, v)]
+
+
+def show_conds(conds):
+    return ' and '.join(('' if pol else 'not ') + show(t) for t, pol in conds) or 'always'
